@@ -163,6 +163,40 @@ CHECKS.update({
         design="4 C19"),
 })
 
+CHECKS.update({
+    "C09": dict(
+        text="Auth.tla is a signature algebra with ideal signatures: declarative AdmitVote / AdmitCert, honest constructors, "
+             "and ~30 alteration operators (kind, slot, hash, signer incl. out of range, mask-only / aggregate-only changes, "
+             "signatures swapped across payloads / signers / halves, bitmask length != N, empty and missing halves, every "
+             "re-tagging incl. notar -> fast-final between 60 and 80 %, declared stake, signer sets +-1 around each threshold, a "
+             "signer in both halves). TLC checks MutationRejected, DeclaredStakeIrrelevant, AdmittedIffHonest, DistinctStakeOnly, "
+             "NoUpgradeBelowStrong, OutOfRangeRejected on every (message, alteration) case (pairs of alterations in thorough); "
+             "every case is assembled as real wire bytes from real BLS signatures and run through decode + "
+             "ValidatedVote/ValidatedCert::try_new under catch_unwind; admitted/refused must equal the spec's verdict, a panic is a "
+             "divergence; honest cases are cross-checked byte for byte against the real constructors.",
+        note="epochs N in {1,3,4,5} with boundary stakes; ideal-signature assumption (blst trusted: rogue keys, malformed points "
+             "not covered); error kind recorded, not compared; " + TB,
+        technique="TLA+ signature algebra + TLC case enumeration + spec->code case replay with real keys",
+        design="4 C09"),
+})
+
+CHECKS.update({
+    "C10": dict(
+        text="NodeIO.tla models the five interfaces as validation pipelines over hostile-but-well-formed input classes; every "
+             "assertion / arithmetic site of a later stage reachable from an interface is a requirement on what the earlier "
+             "stages let through, and TLC checks NoPanic and StillServing for every input sequence (and that the pre-repair "
+             "validation violates them). At code level real nodes run with a Byzantine validator that, per observed slot, "
+             "sends hostile votes (far-future / genesis slots, out-of-range signer, foreign key), unsolicited and mismatched "
+             "repair responses, repair requests with unknown blocks / maximal indices / unknown senders and bursts of oversized "
+             "transactions, and as leader disseminates validly signed malformed blocks (parent in a later / the same slot, "
+             "undecodable payload, first slice without parent, contradictory slices, unknown parent); every panic anywhere in "
+             "the process is a violation and the execution must still satisfy the progress goal of Trace_Progress.tla.",
+        note="byte-level malformation below the wire grammar is not covered (C19 covers grammar-level classes); sampled "
+             "schedules; hostile repair responses are unsolicited or mismatched (solicited-but-forged ones: C14); OS/UDP errors not covered",
+        technique="TLA+ pipeline model + TLC BFS; hostile-traffic simulation of real nodes with panic capture and code->spec trace validation",
+        design="4 C10"),
+})
+
 NOT_YET = {
     "C01": "check not built yet in this round (abstract protocol model + simulator planned, DESIGN 4 C01)",
     "C02": "check not built yet in this round (DESIGN 4 C02)",
